@@ -7,7 +7,7 @@ FAMILIES = ("RC",)
 RULE = (
     "for each of the 9 resource-constraint classes a generated parameter grid (interval lists, bounds, kinds/modes, "
     "period 2-5, offset, start/end) on plain and cumulative workers, assigned directly or through selections, fixed and "
-    "variable tasks with unpinned starts x admitted schedules; busy intervals read from the model and judged by the "
+    "variable tasks with unpinned starts, plus a stratum of two selections sharing the cumulative worker under Same/DistinctWorkers x admitted schedules; busy intervals read from the model and judged by the "
     "documented meaning. Non-trivial = non-default schedule binding for a resource constraint."
 )
 TECHNIQUE = "Hypothesis-generated resource-constraint parameter grids; admitted schedules (steered / enumerated) judged by a z3-free reference model"
